@@ -269,6 +269,7 @@ func ruleC14(c *Ctx) {
 			}
 		}
 		c.Require("loopshape", fname(crc)+": every reward entry is examined", okr, "%s", dr)
+		c.rewardCountExact("facts")
 		nmu := 0
 		for _, b := range crc.Blocks {
 			for _, in := range b.Instrs {
